@@ -184,9 +184,17 @@ def load_all():
 
 
 def select(prop, tier):
+    import json
     hs = [h for h in load_all() if prop in h.props]
     if tier == "quick":
         hs = [h for h in hs if h.tier == "quick"]
+        qs = json.load(open(os.path.join(VERIF, "quick_sets.json")))
+        if prop in qs:
+            want = set(qs[prop])
+            missing = want - set(h.id for h in hs)
+            if missing:
+                raise SystemExit(f"quick_sets.json: unknown or non-quick harness ids for {prop}: {sorted(missing)}")
+            hs = [h for h in hs if h.id in want]
     return hs
 
 
